@@ -499,6 +499,11 @@ func (c *fnCtx) lin0(v ssa.Value) Lin {
 			if l, ok := c.roTableLoad(x); ok {
 				return l
 			}
+			// a variable captured by a closure and never written once the closure exists: every
+			// load of it inside the closure reads the same value
+			if fv, ok := x.X.(*ssa.FreeVar); ok && stableCapturedCell(fv) {
+				return c.atom(fv)
+			}
 		}
 		return c.atom(v)
 	case *ssa.Call:
